@@ -15,6 +15,10 @@ pub struct Case {
     pub delete_target_references: bool,
     /// also hang the first node under the Objects folder
     pub anchored: bool,
+    /// references (indexes into the set of references, taken modulo its size) that are removed again with delete_reference
+    /// before the node is deleted - e.g. one of two parallel references of different types between the same nodes
+    #[serde(default)]
+    pub removed_first: Vec<u8>,
 }
 
 /// HasComponent, HasProperty, HasOrderedComponent (aggregating: subtypes of Aggregates), Organizes, GeneratesEvent
@@ -28,16 +32,19 @@ fn case() -> impl Strategy<Value = Case> {
     (3u8..11, any::<u8>(), proptest::bool::weighted(0.85), any::<bool>()).prop_flat_map(|(nodes, delete, dtr, anchored)| {
         let edge = (0..nodes, 0..nodes, prop_oneof![3 => Just(0u8), 2 => Just(1u8), 1 => Just(2u8), 2 => Just(3u8), 1 => Just(4u8)]);
         // motifs: a cycle a->b->a, a shared child, a chain
-        let motif = (0..nodes, 0..nodes, 0..nodes, 0u8..3).prop_map(|(a, b, c, k)| match k {
+        let motif = (0..nodes, 0..nodes, 0..nodes, 0u8..5).prop_map(|(a, b, c, k)| match k {
             0 => vec![(a, b, 0u8), (b, a, 0u8)],
             1 => vec![(a, c, 0u8), (b, c, 1u8)],
-            _ => vec![(a, b, 0u8), (b, c, 2u8), (c, a, 1u8)],
+            2 => vec![(a, b, 0u8), (b, c, 2u8), (c, a, 1u8)],
+            // parallel references of different types between the same two nodes
+            3 => vec![(a, b, 0u8), (a, b, 1u8)],
+            _ => vec![(a, b, 3u8), (a, b, 0u8), (a, b, 4u8)],
         });
-        (prop::collection::vec(edge, 0..14), prop::collection::vec(motif, 0..3)).prop_map(move |(mut edges, motifs)| {
+        (prop::collection::vec(edge, 0..14), prop::collection::vec(motif, 0..3), prop::collection::vec(any::<u8>(), 0..3)).prop_map(move |(mut edges, motifs, removed_first)| {
             for m in motifs {
                 edges.extend(m);
             }
-            Case { nodes, edges, delete: delete % nodes, delete_target_references: dtr, anchored }
+            Case { nodes, edges, delete: delete % nodes, delete_target_references: dtr, anchored, removed_first }
         })
     })
 }
@@ -83,6 +90,20 @@ fn run(ctx: &Ctx, c: &Case) -> PResult {
             sp.insert_reference(&ObjectId::ObjectsFolder.into(), &id(0), ReferenceTypeId::Organizes);
         }
     });
+    // some references are removed again before the delete
+    for r in &c.removed_first {
+        if truth.is_empty() {
+            break;
+        }
+        let (a, b, t) = *truth.iter().nth(*r as usize % truth.len()).unwrap();
+        let parallel = truth.iter().any(|(a2, b2, t2)| *a2 == a && *b2 == b && *t2 != t);
+        let gone = with_space(|sp| sp.delete_reference(&id(a), &id(b), TYPES[t]));
+        if !gone {
+            return ctx.fail("delete-reference/returned-false", format!("deleting the existing reference {} -{:?}-> {} returned false", a, TYPES[t], b));
+        }
+        truth.remove(&(a, b, t));
+        ctx.class(if parallel { "one_of_parallel_references_removed_first" } else { "reference_removed_first" });
+    }
     // closure of the deleted node under aggregating references
     let k = c.delete as usize % n;
     let mut closure: BTreeSet<usize> = BTreeSet::new();
@@ -166,7 +187,7 @@ fn run(ctx: &Ctx, c: &Case) -> PResult {
 pub fn def() -> PropDef {
     PropDef {
         id: "C29",
-        rule: "reference multigraphs over 3..10 fresh Object nodes in a standard address space (HasComponent, HasProperty, HasOrderedComponent, Organizes, GeneratesEvent; random edges plus explicit two-node cycle, shared child and three-node mixed cycle motifs), one node deleted with and without delete_target_references; oracle: the call returns (a stack overflow kills the worker and is reported from the write-ahead case); exactly the nodes of the forward closure under aggregating references are gone; no forward or inverse reference has an end in the closure; every reference between surviving nodes (and the anchor from the Objects folder) is still there in both directions; non-trivial = closure of at least two nodes or an aggregation cycle through the deleted node; distinct = distinct case",
+        rule: "reference multigraphs over 3..10 fresh Object nodes in a standard address space (HasComponent, HasProperty, HasOrderedComponent, Organizes, GeneratesEvent; random edges plus explicit two-node cycle, shared child, three-node mixed cycle and parallel-reference motifs; up to two references removed again with delete_reference before the delete), one node deleted with and without delete_target_references; oracle: the call returns (a stack overflow kills the worker and is reported from the write-ahead case); exactly the nodes of the forward closure under aggregating references are gone; no forward or inverse reference has an end in the closure; every reference between surviving nodes (and the anchor from the Objects folder) is still there in both directions; non-trivial = closure of at least two nodes or an aggregation cycle through the deleted node; distinct = distinct case",
         assumptions: &["self references are not generated: insert_reference documents a panic for them (the service-level reachability belongs to C33)", "without delete_target_references only termination is asserted"],
         abort_possible: true,
         parts: |tier| vec![part("delete_node", tier.pick(2000, 400_000), case(), run)],
